@@ -44,6 +44,17 @@ def dvVisit2 (aabb2 : Aabb2 K) (best : K) (bv : Aabb2 K) : K × Bool :=
   let w := dvWeight2 aabb2 bv
   (w, decide (w < best))
 
+/-! ## the linear shape-cast visitor (`TOICompositeShapeShapeBestFirstVisitor`, `shape_cast_composite_shape_shape.rs`) -/
+
+/-- `ls_aabb2.half_extents() + Vector::repeat(options.target_distance)` -/
+def tvMargin3 (aabb2 : Aabb3 K) (td : K) : V3 K := (dvMargin3 aabb2).add ⟨td, td, td⟩
+def tvMargin2 (aabb2 : Aabb2 K) (td : K) : V2 K := (dvMargin2 aabb2).add ⟨td, td⟩
+/-- one lane of `visit` on an internal node: `msum.cast_local_ray(Ray(origin, vel12), max_time_of_impact)` = `(mask, weight)` -/
+def tvVisit3 (big : K) (aabb2 : Aabb3 K) (td : K) (vel : V3 K) (maxToi : K) (bv : Aabb3 K) : Bool × K :=
+  laneCastRay3 big (msumBox bv (dvShift3 aabb2) (tvMargin3 aabb2 td)) V3.zero vel maxToi
+def tvVisit2 (big : K) (aabb2 : Aabb2 K) (td : K) (vel : V2 K) (maxToi : K) (bv : Aabb2 K) : Bool × K :=
+  laneCastRay2 big (msumBox2 bv (dvShift2 aabb2) (tvMargin2 aabb2 td)) V2.zero vel maxToi
+
 /-! ## 2-D heightfield: cell quantisation -/
 
 /-- the float↔integer operations of `heightfield2.rs` -/
